@@ -196,6 +196,9 @@ def random_spec(rnd, info) -> Dict[str, Any]:  # noqa: ANN001
         nm = rnd.choice(info["names"])
         pat = rnd.choice([re.escape(nm), re.escape(nm[: max(1, len(nm) // 2)]), "aten::", ".*Kernel", "^Memcpy", "cuda(Launch|Memcpy)", "void .*<", "nomatch_xyz",
                           re.escape(nm) + "$", "."])
+        if info.get("short_cols") and rnd.random() < 0.6:
+            # parts of a name that shorten_name() strips: only the full (table) name matches them
+            pat = rnd.choice(["^void ", ".*<float", r"\(", "void .*<", "<.*>", re.escape(nm) + "$", r".*\)$", "::detail::"])
         # a composite hands one symbol table (or none) to every member: info["pass_table"] is decided per application
         in_ctor = info["kind"] != "decoded_inplace" and rnd.random() < 0.3
         return {"kind": k, "pattern": pat, "with_table": info["pass_table"] or in_ctor, "table_in_ctor": in_ctor and not info["pass_table"]}
@@ -331,7 +334,7 @@ def run_case(case: Dict[str, Any], ctx: Any) -> core.CaseResult:
             r = rnd.choice(ranks)
             base = t.get_trace(r)
             kind = rnd.choice(["encoded", "encoded", "decoded_cols", "decoded_inplace", "rank_col", "rank_col_dup_index", "no_iteration", "empty",
-                               "no_end", "rebased", "decoded_name_only", "decoded_name_projection"])
+                               "no_end", "rebased", "decoded_name_only", "decoded_name_projection", "decoded_short_cols", "iteration_gap"])
             if kind == "encoded":
                 df = base.copy()
             elif kind == "decoded_cols":
@@ -359,6 +362,19 @@ def run_case(case: Dict[str, Any], ctx: Any) -> core.CaseResult:
                 if kind == "decoded_name_projection":
                     df = df[["index", "name", "ts", "dur", "stream", "correlation", "iteration", "end"]].copy()
                 res.counters["frames_with_only_the_name_decoded"] += 1
+            elif kind == "decoded_short_cols":
+                # Trace.decode_symbol_ids() with its default: s_name / s_cat hold *shortened* names next to the encoded columns
+                from hta.common.trace_symbol_table import decode_symbol_id_to_symbol_name
+                df = base.copy()
+                decode_symbol_id_to_symbol_name(df, st, True)
+                res.counters["frames_with_shortened_name_columns"] += 1
+            elif kind == "iteration_gap":
+                # the iterations present are not consecutive numbers (a middle step was filtered out earlier)
+                df = base.copy()
+                its_ = sorted({int(x) for x in df["iteration"].tolist() if x >= 0})
+                if len(its_) >= 3:
+                    df = df[df["iteration"] != its_[len(its_) // 2]].copy()
+                    res.counters["frames_with_a_gap_in_the_iterations"] += 1
             elif kind == "no_iteration":
                 df = base.drop(columns=["iteration"]).copy()
             elif kind == "no_end":
@@ -379,12 +395,13 @@ def run_case(case: Dict[str, Any], ctx: Any) -> core.CaseResult:
             sym = st.get_sym_table()
             df["_uid"] = range(len(df))          # harness row identity (filters ignore unknown columns); labels may repeat
             info = {"kind": {"no_iteration": "encoded", "empty": "encoded", "rank_col_dup_index": "rank_col", "no_end": "encoded", "rebased": "encoded",
-                                     "decoded_name_only": "decoded_inplace", "decoded_name_projection": "decoded_inplace"}.get(kind, kind), "string_name_col": name_col, "n_ranks": len(ranks),
+                                     "decoded_name_only": "decoded_inplace", "decoded_name_projection": "decoded_inplace",
+                                     "decoded_short_cols": "encoded", "iteration_gap": "encoded"}.get(kind, kind), "string_name_col": name_col, "short_cols": kind == "decoded_short_cols", "n_ranks": len(ranks),
                     "iterations": sorted({int(x) for x in df["iteration"].tolist() if x >= 0}) if "iteration" in df.columns else [],
                     "starts": [int(x) for x in df["ts"].tolist()] or [0], "ends": [int(a + b) for a, b in zip(df["ts"].tolist(), df["dur"].tolist())] or [0],
                     "names": sorted({sym[x] if isinstance(x, int) else x for x in df["name"].tolist()}) or ["x"],
                     "name_only_decoded": kind in ("decoded_name_only", "decoded_name_projection"),
-                    "pass_table": kind not in ("decoded_inplace", "decoded_name_only", "decoded_name_projection") and rnd.random() < (0.8 if kind in ("encoded", "no_iteration", "empty", "no_end", "rebased") else 0.4)}
+                    "pass_table": kind not in ("decoded_inplace", "decoded_name_only", "decoded_name_projection") and rnd.random() < (0.8 if kind in ("encoded", "no_iteration", "empty", "no_end", "rebased", "iteration_gap") else 1.0 if kind == "decoded_short_cols" else 0.4)}
             n_f = rnd.choice([1, 1, 1, 2, 3, 4])
             specs = [random_spec(rnd, info) for _ in range(n_f)]
             built = [build(s, tf, st, info) for s in specs]
